@@ -736,6 +736,35 @@ def circuit(rng, frozen=None, with_tags=True):
     return c.freeze() if frozen else c
 
 
+def near_twin_subcircuits(rng):
+    """One document holding two different sub-circuits that are as alike as values get: they differ in one number, chosen
+    among pairs that Python hashes alike (-1 / -2, 1.0 / 1, 0.0 / -0.0 ...), so that anything that tells sub-circuits apart
+    by less than their value (a hash, an id, a position) mixes them up."""
+    import cirq
+    a, b = pick(rng, [(-1, -2), (-2, -1), (1, 1.0), (-1.0, -2.0), (0.5, 0.5000000000000001), (-1, -2)])
+    # (pairs like 2**61 - 1 / 0 also hash alike, but as gate angles they are equal *values* under Cirq's periodic equality)
+    kind = int(rng.integers(4))
+    if kind == 0 and isinstance(a, int) and isinstance(b, int) and abs(a) < 100 and abs(b) < 100:
+        qa, qb = cirq.LineQubit(a), cirq.LineQubit(b)
+        fa, fb = cirq.FrozenCircuit(cirq.X(qa)), cirq.FrozenCircuit(cirq.X(qb))
+    elif kind == 1 and isinstance(a, int) and isinstance(b, int) and abs(a) < 100 and abs(b) < 100:
+        c = int(rng.integers(-2, 3))
+        fa, fb = cirq.FrozenCircuit(cirq.H(cirq.GridQubit(a, c))), cirq.FrozenCircuit(cirq.H(cirq.GridQubit(b, c)))
+    elif kind == 2:
+        q = q_line(rng)
+        fa, fb = cirq.FrozenCircuit(cirq.X(q) ** float(a)), cirq.FrozenCircuit(cirq.X(q) ** float(b))
+    else:
+        q = q_line(rng)
+        fa, fb = cirq.FrozenCircuit(cirq.rz(float(a)).on(q)), cirq.FrozenCircuit(cirq.rz(float(b)).on(q))
+    ops = [cirq.CircuitOperation(fa), cirq.CircuitOperation(fb)]
+    if rbool(rng):
+        ops.append(cirq.CircuitOperation(fa, repetitions=2))  # and a genuinely shared one
+    order = [ops[int(i)] for i in rng.permutation(len(ops))]
+    if rbool(rng):
+        return cirq.Circuit([cirq.Moment([o]) for o in order])
+    return cirq.FrozenCircuit([cirq.Moment([o]) for o in order])
+
+
 def circuit_op(rng, fc=None, depth=0):
     """CircuitOperation exercising every constructor field."""
     import cirq
@@ -1457,6 +1486,7 @@ def build_generators():
     add("frozencircuit/1", lambda rng: circuit(rng, frozen=True), "circuit")
     for i in range(4):
         add("circuitop/%d" % i, circuit_op, "op")
+    add("near-twin-subcircuits", near_twin_subcircuits, "circuit")
     for i in range(3):
         add("sweep/%d" % i, sweep, "sweep")
     add("resolver", param_resolver)
